@@ -41,10 +41,10 @@ type streamVec struct {
 type c11Case struct {
 	S     []string `json:"s"`
 	T     string   `json:"t"`
-	Lens  []int    `json:"lens"`  // concrete length of each abstract symbol
-	Sched []int    `json:"sched"` // chunk sizes (cycled); 0 = zero-length read
+	Lens  []int    `json:"lens"`     // concrete length of each abstract symbol
+	Sched []int    `json:"sched"`    // chunk sizes (cycled); 0 = zero-length read
 	WithE bool     `json:"with_err"` // the last data chunk is returned together with the terminal error
-	Ideal [][3]int `json:"ideal"` // kind (0 val,1 EOF,2 E,3 ueof,4 syn), start, end in abstract offsets
+	Ideal [][3]int `json:"ideal"`    // kind (0 val,1 EOF,2 E,3 ueof,4 syn), start, end in abstract offsets
 	Trace bool     `json:"trace,omitempty"`
 }
 
